@@ -242,7 +242,9 @@ def run(model, col, tier):
 
         from ..sem import local_env as _le13, resolve as _rs13
 
-        test3 = _rs13(rif3.test, {k_: v_ for k_, v_ in _le13(f3).items() if k_ != tname})
+        from ..sem import inline_pure_calls as _ipc13
+
+        test3 = _rs13(_ipc13(idx, rif3.test, f3.args.args[0].arg), {k_: v_ for k_, v_ in _le13(f3).items() if k_ != tname})
         test3 = ast.fix_missing_locations(_AttrSubst().visit(_copy.deepcopy(test3)))
         for c in classes:
             env = {tname or "rhsType": T(c)}
@@ -352,7 +354,7 @@ def run(model, col, tier):
     cparam = hp[1] if len(hp) > 1 else None
     from ..sem import local_env as _lenv, resolve as _resolve
 
-    helper_env = _lenv(helper)
+    helper_env = _lenv(helper, allow_impure=True)  # a test held in a local (`usesMissing = ContainsAnyOf(..) or ..`) is read in place
     for n in ast.walk(helper):
         if isinstance(n, ast.If):
             t = _resolve(n.test, helper_env)
